@@ -17,7 +17,7 @@ LEVEL_NOTE = ("Trusted: CPython asyncio, instrumentation shim (transparent spans
 DESIGN_REF = "§5 C01"
 RULE = ("case = one generated program (fan / collect / wait / catch families) + schedule; distinct = hash of the tick-order signature (tick type, step, worker id); "
         "non-trivial = some step reached full capacity with a non-empty queue")
-REQUIRED_REACH = ["body_enter", "reducer_post", "stream_slot_events", "queue_nonempty",
+REQUIRED_REACH = ["overridden_inherited_step", "body_enter", "reducer_post", "stream_slot_events", "queue_nonempty",
                   "state_full_capacity_nw1", "state_full_capacity_nw2", "state_full_capacity_nw3", "state_full_capacity_nw4",
                   "resumed_case", "sync_case"]
 ASSUMPTIONS = ["async steps under the virtual clock; sync steps in a separate real-thread workload"]
@@ -39,10 +39,20 @@ def gen_case(seed):
             "equalfan": gen.gen_equalfan, "collect2": gen.gen_collect2, "syncfan": gen.gen_syncfan}[fam](rnd)
     spec["sched_seed"] = seed
     spec["family"] = fam
+    if rnd.random() < 0.2:
+        # class hierarchy: some steps come from a base class as they are, others are overridden by the program class with their
+        # own num_workers / retry policy (the base declares two more workers and no policy)
+        plain = [s_["name"] for s_ in spec["steps"] if not s_.get("handler") and not s_.get("late")]
+        rnd.shuffle(plain)
+        cut = rnd.randint(1, len(plain))
+        spec["inherit"] = plain[:cut]
+        spec["inherit_only"] = [n_ for n_ in plain[cut:] if rnd.random() < 0.5]
     return {"kind": kind, "seed": seed, "spec": spec, "snap_at": rnd.randint(2, 25)}
 
 
 def run_one(case, acc):
+    if case["spec"].get("inherit"):
+        acc.hit("overridden_inherited_step")
     from vf import engine_run, oracles
 
     kind = case["kind"]
